@@ -1,4 +1,5 @@
-//! Umbrella over the generated zoo crates z0..z7 (sources written by zoogen).
+//! Umbrella over the generated zoo crates z0..z7 (fixed zoo) and zs0..zs7 (seed-dependent part of the
+//! thorough tier; empty otherwise). Sources written by zoogen.
 use vcore::zoo::ZooModule;
 use zoort::Entry;
 
@@ -16,5 +17,13 @@ pub fn registry() -> Vec<Entry> {
     z5::register(&mut v);
     z6::register(&mut v);
     z7::register(&mut v);
+    zs0::register(&mut v);
+    zs1::register(&mut v);
+    zs2::register(&mut v);
+    zs3::register(&mut v);
+    zs4::register(&mut v);
+    zs5::register(&mut v);
+    zs6::register(&mut v);
+    zs7::register(&mut v);
     v
 }
